@@ -52,7 +52,7 @@ Inductive wt_end := WtFin | WtReset (code : N) | WtOpen.
    the peer sent on the stream.  [enabled] only matters for unidirectional streams. *)
 Inductive wt_observation :=
 | ObsStream (session : N) (payload : bytes) (e : wt_end)   (* surfaced, attached to session, these bytes, this ending *)
-| ObsNothing                                               (* not surfaced; no connection error, no STOP_SENDING by h3 *)
+| ObsNothing                                               (* not surfaced, and no connection error (STOP_SENDING or not: unconstrained) *)
 | ObsUnconstrained.                                        (* not a WebTransport stream: other properties *)
 
 Definition wt_expect_uni (enabled : bool) (bs : bytes) (e : wt_end) : wt_observation :=
